@@ -103,6 +103,12 @@ func zz07Value(shape, n int) any {
 		return []any{}
 	case 11:
 		return map[string]map[string]int8{"m": {}}
+	case 13:
+		var v any = []any{}
+		return &v
+	case 14:
+		var v any = map[string]any{}
+		return &v
 	default:
 		return [0]int8{}
 	}
